@@ -168,7 +168,17 @@ class Importance(CellModifierInput):
             raise ValueError("importance must be ≥ 0")
         if particle not in self._particle_importances:
             self._generate_default_cell_tree(particle)
-        self._particle_importances[particle]["data"][0].value = value
+        tree = self._particle_importances[particle]
+        # an entry like ``imp:n,p=1`` is one tree stored under every particle of its classifier:
+        # this particle gets its own copy before its value changes, the others keep theirs
+        if any(
+            other_tree is tree
+            for other, other_tree in self._particle_importances.items()
+            if other != particle
+        ):
+            tree = copy.deepcopy(tree)
+            self._particle_importances[particle] = tree
+        tree["data"][0].value = value
 
     def __delitem__(self, particle):
         if not isinstance(particle, Particle):
